@@ -22,14 +22,14 @@ clear: col.clear()                                    `Set.clear`
 _AssociationDict.__setitem__: key in col -> setter    `Dict.setItem`
    on the existing object, else col[key] = creator
 __delitem__: del col[key] (KeyError)                  `Dict.delItem`
-pop(key[, default]): member = col.pop(key, *arg);     `Dict.pop` (with a default and a missing key the
-   return _get(member)                                 getter is applied to the default: `getterOnDefault`)
+pop(key[, default]): missing key -> default / KeyError; `Dict.pop`
+   member = col.pop(key); return _get(member)
 setdefault, update (dict built first, then setitem)   `Dict.setDefault`, `Dict.update`
 _AssociationList.append / extend / __iadd__           `Lst.append`, `Lst.extend`
 insert: col[i:i] = [creator(v)]                       `Lst.insert`
 pop(i): getter(col.pop(i)); remove(v): first index    `Lst.pop`, `Lst.remove`
 __setitem__(int): setter(col[i], v); __delitem__(int) `Lst.setItem`, `Lst.delItem`
-__imul__(n): n == 0 clear; n > 1 extend(list(self)    `Lst.imul` (n < 0 and n = 1: nothing)
+__imul__(n): n <= 0 clear; n > 1 extend(list(self)   `Lst.imul` (n = 1: nothing)
    * (n - 1))
 Import-free, total, executable.
 -/
@@ -138,14 +138,13 @@ def eraseKey : List (Int × Mem) → Int → List (Int × Mem)
 def delItem (s : St) (k : Int) : Except Err St :=
   if hasKey s k then .ok { s with col := eraseKey s.col k } else .error .keyError
 
-/-- `pop(key)` (`dflt = 0`), `pop(key, None)` (`dflt = 1`), `pop(key, <other>)` (`dflt = 2`):
-    `member = col.pop(key, *arg); return getter(member)` where the default getter is
-    `_getter(instance) if instance is not None else None` -/
+/-- `pop(key)` (`dflt = 0`) / `pop(key, default)` (`dflt ≥ 1`): a missing key returns the default
+    when one is given, else `col.pop(key)` raises KeyError; otherwise
+    `member = col.pop(key); return getter(member)` -/
 def pop (s : St) (k : Int) (dflt : Nat) : Except Err St :=
   if hasKey s k then .ok { s with col := eraseKey s.col k }
   else if dflt = 0 then .error .keyError
-  else if dflt = 1 then .ok s
-  else .error .getterOnDefault
+  else .ok s
 
 def setDefault (s : St) (k d : Int) : St :=
   if hasKey s k then s else { col := s.col ++ [(k, ⟨s.next, d⟩)], next := s.next + 1 }
@@ -213,7 +212,7 @@ def repeatList (l : List Int) : Nat → List Int
   | k + 1 => l ++ repeatList l k
 
 def imul (s : St) (n : Int) : St :=
-  if n = 0 then clear s
+  if n ≤ 0 then clear s
   else if n > 1 then extend s (repeatList (view s) (n - 1).toNat)
   else s
 
